@@ -76,6 +76,11 @@ var c02Scenarios = []C02Plan{
 	{Attack: "eat-claim", Arg: "wrong-nonce"}, {Attack: "eat-claim", Arg: "no-nonce"}, {Attack: "eat-claim", Arg: "nonce-text"},
 	{Attack: "eat-claim", Arg: "wrong-ueid"}, {Attack: "eat-claim", Arg: "no-ueid"}, {Attack: "eat-claim", Arg: "ueid-short"}, {Attack: "eat-claim", Arg: "ueid-type0"},
 	{Attack: "eat-claim", Arg: "no-fdo"}, {Attack: "eat-claim", Arg: "fdo-int"}, {Attack: "eat-claim", Arg: "fdo-two"}, {Attack: "eat-claim", Arg: "fdo-empty-param"}, {Attack: "eat-claim", Arg: "no-setup-nonce"},
+	// a forged ProveDevice carrying the adversary's own, well-formed key-exchange
+	// parameter is rejected; the adversary then continues the session under the
+	// keys that parameter yields, with and without the state backend failing to
+	// invalidate the token after the rejection
+	{Attack: "forged-then-tunnel", Arg: "invalidate-ok"}, {Attack: "forged-then-tunnel", Arg: "invalidate-fails"},
 	{Attack: "replay-other-session"}, {Attack: "replay-other-device"}, {Attack: "ueid-swap"}, {Attack: "to1-token"},
 	{Attack: "skip", Msg: 66, Arg: "plain"}, {Attack: "skip", Msg: 68, Arg: "plain"}, {Attack: "skip", Msg: 70, Arg: "plain"},
 	{Attack: "skip", Msg: 66, Arg: "selfkey"}, {Attack: "skip", Msg: 68, Arg: "selfkey"}, {Attack: "skip", Msg: 70, Arg: "selfkey"},
@@ -378,6 +383,42 @@ func c02Run(env *Env, pl *C02Plan, collect64 *[]byte) {
 		}
 		mark()
 		send(adv, 64, body)
+
+	case "forged-then-tunnel":
+		v, err := openSession(adv, d1.Cred.GUID)
+		if err != nil {
+			setupFail("open-session", err)
+			return
+		}
+		xB, sess, err := DeviceKexParam(kx, spec.ID, v.KexA, &v.OwnerPubKey)
+		if err != nil {
+			setupFail("kex-param", err)
+			return
+		}
+		sn := randNonce()
+		body, err := BuildEAT(EATSpec{Nonce: v.ProveNonce[:], UEID: ueid(d1.Cred.GUID), FdoClaim: []any{xB}, SetupNonce: &sn}, s.Keys.Get("att1", cfg.Fam()), cfg.PSS())
+		if err != nil {
+			setupFail("build-eat", err)
+			return
+		}
+		mark()
+		if on := s.Nodes["owner1"]; pl.Arg == "invalidate-fails" && on.Sim != nil {
+			on.Sim.FailNext["InvalidateToken"] = 8
+			o.Fault("store:InvalidateToken-fails")
+		}
+		send(adv, 64, body)
+		for _, m := range []int{66, 68, 68} {
+			enc, eerr := sess.Encrypt(rand.Reader, cbor.RawBytes(c02LateBody(m, "plain", spec)))
+			if eerr != nil {
+				setupFail("encrypt-own-keys", eerr)
+				return
+			}
+			eb, _ := cbor.Marshal(enc)
+			send(adv, uint8(m), eb)
+		}
+		if on := s.Nodes["owner1"]; on.Sim != nil {
+			on.Sim.FailNext["InvalidateToken"] = 0
+		}
 
 	case "replay-other-session", "replay-other-device":
 		dv := d1
